@@ -790,6 +790,31 @@ func ruleInsertionPointFresh(r *Run) {
 			}
 			n++
 			ok2, why := freshSlice(st.Val, 0)
+			if p, isParam := st.Val.(*ssa.Parameter); isParam && !ok2 {
+				// a setter (`step.WithInsertionPoint(ip)`): what is stored is what the callers hand
+				// in. Callers inside the planner are held to the rule; callers outside it do not
+				// have the planner's working slice (the rule's scope is the planner package)
+				pi := -1
+				for i, q := range fn.Params {
+					if q == p {
+						pi = i
+					}
+				}
+				ins := r.P.CG.In[fn]
+				ok2 = pi >= 0 && len(ins) > 0
+				for _, e := range ins {
+					if e.Kind != "static" || pi >= len(e.Site.Common().Args) {
+						ok2, why = false, "parameter "+p.Name()+" of a function whose callers cannot all be seen"
+						break
+					}
+					if topFn(e.Caller).Pkg == nil || topFn(e.Caller).Pkg.Pkg.Path() != plannerPkg {
+						continue
+					}
+					if f, w := freshSlice(e.Site.Common().Args[pi], 0); !f {
+						ok2, why = false, "parameter "+p.Name()+", given a "+w+" by "+fnName(e.Caller)
+					}
+				}
+			}
 			r.Check(ok2, rule, fnName(fn), "QueryPlanStep.InsertionPoint", r.P.pos(st.Pos()),
 				"the step's insertion point is a newly made slice (or nil)",
 				"a plan step's InsertionPoint shares its backing array with the planner's working slice ("+why+"): extractSelectionSet keeps appending sibling aliases to that slice, overwriting the path of steps already created — their results are stitched into the wrong place")
